@@ -735,6 +735,24 @@ zif_utc_time(zif_t z, stamp_t t)
 	while ((xj = __offs(z, t - xi)) != xi && xi != old) {
 		old = xi = xj;
 	}
+	if (LIKELY(z->cz != TZCZ_UNK || !z->ntr || __offs(z, t - xj) == xj)) {
+		/* T - XJ converts back to T */
+		return t - xj;
+	}
+	/* both probes missed, an offset may be in force for a shorter
+	 * time than the jumps around it: go through the ranges that
+	 * can hold an instant with local time T, latest first */
+	for (int i = __find_trno(z, t + 93600, 0, z->ntr);
+	     i >= 0 && (i + 1U >= z->ntr || zif_trans(z, i + 1) > t - 93600);
+	     i--) {
+		const stamp_t u = t - _zif_troffs(z, i);
+
+		if (u >= zif_trans(z, i) &&
+		    (i + 1U >= z->ntr || u < zif_trans(z, i + 1))) {
+			return u;
+		}
+	}
+	/* T falls into a gap, stick with the estimate */
 	return t - xj;
 }
 
